@@ -194,6 +194,28 @@ func VerifHarness_C14_Replace() {
 	verifrt.Reach("end")
 }
 
+// replace() takes pattern and substitution literally: characters that mean something to regular expressions or to
+// their replacement templates ('.', '$0', '$$', '${1}', a backslash) are ordinary text on both sides.
+func VerifHarness_C14_ReplaceIsLiteral() {
+	s := []string{"abc", "a.c", "a$c", "a\\c"}[verifrt.Choose("s", 4)]
+	old := []string{"b", ".", "$", "\\", "a"}[verifrt.Choose("old", 5)]
+	nw := []string{"$0", "$1x", "$$", "${1}y", "\\1", "$", "x$y", "US$2"}[verifrt.Choose("new", 8)]
+	got, err := Replace(verifCtx(), verifReceiver(s), verifLit(system.String(old)), verifLit(system.String(nw)))
+	r, ok := verifStr(got)
+	want := ""
+	for i := 0; i < len(s); {
+		if i+len(old) <= len(s) && s[i:i+len(old)] == old {
+			want += nw
+			i += len(old)
+		} else {
+			want += s[i : i+1]
+			i++
+		}
+	}
+	verifrt.Assert(err == nil && ok && r == want, "replace-takes-pattern-and-substitution-literally")
+	verifrt.Reach("end")
+}
+
 // upper()/lower(): ASCII letters are mapped, every other ASCII character is intact.
 func VerifHarness_C14_Case() {
 	s := verifUTF8("s", verifSLen())
